@@ -4,8 +4,8 @@
   C `int` values are `Nat` where cbuf_is_valid keeps them non-negative and `Int`
   for the caller-supplied lengths / line counts (which may be -1 or invalid).
   `data` has size+1 cells (one sentinel cell keeps full and empty distinct).
-  The replay region (i_rep, got_wrap) is modelled because `writer` and `grow`
-  read it; the replay/rewind/copy/move entry points are not in the op set.
+  The replay region (i_rep, got_wrap) is modelled; replay / rewind / *_to_fd / copy / move are
+  at the end of the file (replay_line / rewind_line are not modelled).
 -/
 import PdshVerif.Gen.Cbuf
 
@@ -298,5 +298,115 @@ def optSet (c : Cbuf) (v : Nat) : Int × Cbuf :=
 
 /-- the unread bytes, oldest first (abstraction function towards the FIFO spec). -/
 def contents (c : Cbuf) : List UInt8 := circRead c.data (c.size + 1) c.iOut c.used
+
+/-! ### replay region: bytes already read (or dropped) that are still in the buffer -/
+
+/-- number of replayable bytes, `(i_out - i_rep + (size + 1)) % (size + 1)` -/
+def reused (c : Cbuf) : Nat := (c.iOut + (c.size + 1) - c.iRep) % (c.size + 1)
+
+/-- the replayable bytes, oldest first (second component of the abstraction) -/
+def hist (c : Cbuf) : List UInt8 := circRead c.data (c.size + 1) c.iRep (reused c)
+
+/-- `cbuf_replayer` into memory (len > 0): the newest `min len reused` replayable bytes -/
+def replayer (c : Cbuf) (len : Nat) : List UInt8 :=
+  let n := min len (reused c)
+  circRead c.data (c.size + 1) ((c.iOut + (c.size + 1) - n) % (c.size + 1)) n
+
+def replay (c : Cbuf) (len : Int) : Int × List UInt8 :=
+  if len < 0 then (-1, [])
+  else if len = 0 then (0, [])
+  else let bs := replayer c len.toNat; (bs.length, bs)
+
+def rewind (c : Cbuf) (len : Int) : Int × Cbuf :=
+  if len < -1 then (-1, c)
+  else if len = 0 then (0, c)
+  else
+    let n := if len = -1 then reused c else min len.toNat (reused c)
+    if n > 0 then
+      (n, { c with used := c.used + n, iOut := (c.iOut + (c.size + 1) - n) % (c.size + 1) })
+    else (n, c)
+
+/-! ### descriptor sinks: `cbuf_put_fd` on a descriptor that takes `cap` more bytes and then
+    fails (EAGAIN).  The two-chunk copy loop of cbuf_reader / cbuf_replayer is collapsed:
+    it delivers `min len cap` bytes in order, or reports the failed write when none went out. -/
+
+def lenFd (c : Cbuf) (len : Int) : Nat := if len = -1 then c.used else len.toNat
+
+/-- `cbuf_reader(src, len, cbuf_put_fd, &fd)` for len > 0: (ret, bytes written to the descriptor) -/
+def readerFd (c : Cbuf) (len cap : Nat) : Int × List UInt8 :=
+  let l := min len c.used
+  if l = 0 then (0, [])
+  else if cap = 0 then (-1, [])
+  else let bs := reader c (min l cap); (bs.length, bs)
+
+def peekToFd (c : Cbuf) (len : Int) (cap : Nat) : Int × List UInt8 :=
+  if len < -1 then (-1, [])
+  else
+    let l := lenFd c len
+    if l > 0 then readerFd c l cap else (0, [])
+
+def readToFd (c : Cbuf) (len : Int) (cap : Nat) : Int × List UInt8 × Cbuf :=
+  if len < -1 then (-1, [], c)
+  else
+    let l := lenFd c len
+    if l > 0 then
+      let (n, bs) := readerFd c l cap
+      (n, bs, if n > 0 then dropper c bs.length else c)
+    else (0, [], c)
+
+/-- `cbuf_replayer(src, len, cbuf_put_fd, &fd)` for len > 0 -/
+def replayerFd (c : Cbuf) (len cap : Nat) : Int × List UInt8 :=
+  let l := min len (reused c)
+  if l = 0 then (0, [])
+  else if cap = 0 then (-1, [])
+  else
+    let bs := circRead c.data (c.size + 1) ((c.iOut + (c.size + 1) - l) % (c.size + 1)) (min l cap)
+    (bs.length, bs)
+
+/-- `cbuf_replay_to_fd`: a length of -1 means `size - used` here -/
+def replayToFd (c : Cbuf) (len : Int) (cap : Nat) : Int × List UInt8 :=
+  if len < -1 then (-1, [])
+  else
+    let l := if len = -1 then c.size - c.used else len.toNat
+    if l > 0 then replayerFd c l cap else (0, [])
+
+/-! ### buffer to buffer -/
+
+/-- `cbuf_copier(src, dst, len, &ndropped)` for len > 0: (ret, ndropped, dst') -/
+def copier (src dst : Cbuf) (len0 : Nat) : Int × Nat × Cbuf :=
+  let l0 := min len0 src.used
+  if l0 = 0 then (0, 0, dst)
+  else
+    let (d, nfree) := maybeGrow dst l0
+    match effLen d l0 with
+    | none => (-1, 0, d)
+    | some len =>
+      let ndropped := len - (d.size - d.used)
+      -- "prevents copying data that will be overwritten if the cbuf wraps multiple times"
+      let skip := if len > d.size then len - d.size else 0
+      let ncopy := len - skip
+      let bytes := circRead src.data (src.size + 1) ((src.iOut + skip) % (src.size + 1)) ncopy
+      let data' := circWrite d.data (d.size + 1) d.iIn bytes
+      let iDst := (d.iIn + ncopy) % (d.size + 1)
+      (len, ndropped, if ncopy > 0 then commit d nfree data' iDst ncopy else d)
+
+/-- `cbuf_copy(src, dst, len, &ndropped)` (src ≠ dst) -/
+def copy (src dst : Cbuf) (len : Int) : Int × Nat × Cbuf :=
+  if len < -1 then (-1, 0, dst)
+  else if len = 0 then (0, 0, dst)
+  else
+    let l := lenFd src len
+    if l > 0 then copier src dst l else (0, 0, dst)
+
+/-- `cbuf_move(src, dst, len, &ndropped)` (src ≠ dst): (ret, ndropped, src', dst') -/
+def move (src dst : Cbuf) (len : Int) : Int × Nat × Cbuf × Cbuf :=
+  if len < -1 then (-1, 0, src, dst)
+  else if len = 0 then (0, 0, src, dst)
+  else
+    let l := lenFd src len
+    if l > 0 then
+      let (n, d, dst') := copier src dst l
+      (n, d, if n > 0 then dropper src n.toNat else src, dst')
+    else (0, 0, src, dst)
 
 end PdshVerif.Cbuf
